@@ -28,6 +28,18 @@ def simulate_diffusion_with_brownian_increments(scaled_stddev, brownian_incremen
     return np.cumsum(diffs)
 
 
+def refine_up_to_maturity(build_finer_grid, maturity, jump_times, *jump_values):
+    """Apply the maximum-step refinement to the jump times AND to the last step which ends at the maturity (a path
+    without any jump is one single step from 0 to the maturity).
+
+    :return: the refined jump times and values (without the point at maturity, which is added by the caller)
+    """
+    times = np.append(jump_times, maturity)
+    values = [np.append(v, v[-1] if v.size else 0.0) for v in jump_values]
+    refined = build_finer_grid(times, *values)
+    return tuple(r[..., :-1] for r in refined)
+
+
 class LevyProcess(Process):
     """Defines a simulation process for jump models (with a diffusive part and a pure jump part)
 
@@ -306,8 +318,6 @@ class SimulationMaximumStep(SimulationWithJumpTimes):
 
     def simulate_jumps(self):
         jump_times, jump_values = super().simulate_jumps()
-
-        if jump_times.size == 0:
-            return jump_times, jump_values
-
-        return self.build_finer_grid(jump_times, jump_values)
+        return refine_up_to_maturity(
+            self.build_finer_grid, self._maturity, jump_times, jump_values
+        )
